@@ -12,7 +12,7 @@ import (
 
 func init() {
 	props["C09"] = &propCheck{
-		lean:    []string{"JSight.Props.C09"},
+		lean:    []string{"JSight.Props.C09", "JSight.Props.C16", "JSight.Props.C19"},
 		exes:    []string{},
 		run:     runC09,
 		rule:    "accepted projects: generated documents, the accepted fixture files, byte-level mutants of fixtures and generated documents with hostile names/paths (spaces, quotes, non-ASCII, invalid UTF-8); every accepted one is serialised and read back with a strict (duplicate-key-detecting, UTF-8-validating) JSON reader; non-trivial = accepted with >= 2 interactions; distinct = distinct input bytes",
